@@ -30,6 +30,11 @@ RULE = (
     " of a patch's leading directives must hold at its marker"
     " instruction."
 )
+RULE += (
+    " No-op rewrites of a .bss-like tail (gap of uninitialised bytes + data block without bytes) must equal the input with whole nops in a code block / zeros in a data block in the gap (a gap behind code that is no multiple of the nop is refused);"
+    " split: tables are filled in shuffled order and every entry must lie inside the piece it is keyed to;"
+    " 40% of the PE modules of the alignment workload have no alignment table."
+)
 ASSUMPTIONS = [
     "PaddingError is an accepted outcome only when the required padding is not a multiple of the nop size",
     "the clause about alignment of patch-added blocks is judged only through the module-level alignment check (upstream pins that .align inside an interval is recorded, not padded; see known findings)",
